@@ -402,6 +402,15 @@ def run(pid, tier, replay_file=None):
 
 # ------------------------------------------------------------------ model instances (C04)
 def _inst_obs(state):
+    """never raises: a tree on which instances cannot even be printed or compared is reported
+    as drift here (the verdict about it belongs to the main pipeline of the check)"""
+    try:
+        return _inst_obs_unsafe(state)
+    except Exception as exc:  # noqa
+        return {"parse": "ok", "err": type(exc).__name__ + ": " + str(exc)[:100]}
+
+
+def _inst_obs_unsafe(state):
     """real results of one document for the value indices the MODEL accepts: repr text read
     back with ast (terms of Repr.tla) and the partition == induces on them"""
     import ast
